@@ -138,3 +138,15 @@ Example frame_example :
   let w' := fst (run nat 0 xws xdigit xsign xcreat xfull true true w [ONewOpen nat 0 1 MW; OWrite nat 0 [5]; ODel nat 0]) in
   abs_obj nat w' (w_objs nat w' 2) = SOpen (mkS 0 2 false MWp).
 Proof. split; [simpl; discriminate|]. vm_compute. split; reflexivity. Qed.
+
+(* non-vacuity of the Format-sink theorem: one piece of 300 bytes (longer than a 256-byte buffer), an empty
+   piece and a short one, read back in chunks 256 + 0 + 47 *)
+Example print_read_example :
+  let w := fst (xrun true true [ONew nat 0]) in
+  let ts := [repeat 7 300; []; [60; 62; 10]] in
+  w_objs nat w 0 = FObj None /\ list_sum [256; 0; 47] = length (concat ts) /\
+  snd (run nat 0 xws xdigit xsign xcreat xfull true true w (print_history nat 0 1 MW MR ts [256; 0; 47]))
+  = [OkUnit nat; OkUnit nat; OkUnit nat; OkUnit nat; OkNum nat 303; OkUnit nat; OkUnit nat;
+     OkRead nat 1 (repeat 7 256); OkRead nat 0 []; OkRead nat 1 (repeat 7 44 ++ [60; 62; 10]);
+     OkNum nat 303; OkBool nat false; OkRead nat 0 []; OkBool nat true].
+Proof. vm_compute. repeat split; reflexivity. Qed.
